@@ -292,10 +292,15 @@ Definition no_line_break (s : str) : bool := forallb (fun c => negb ((c =? 10) |
 (* The boolean oracle, evaluated on what the implementation printed for message m in the given mode:
    the text is exactly one JSON value, an object, followed by nothing but whitespace; every built-in
    field not shadowed by a custom attribute and every custom attribute (at its last setting) that
-   does not shadow a built-in is found under its name with exactly its value; compact = no CR/LF. *)
+   does not shadow a built-in is found under its name with exactly its value; compact = no CR/LF;
+   the object has no member that is neither a built-in field nor an attribute of this message. *)
+(* nothing else: every member is a built-in field or a custom attribute of THIS message *)
+Definition only_known (kv : list (str * json)) (m : lmsg) : bool :=
+  forallb (fun kv' => is_spec_name (fst kv') || has_key (fst kv') (mattrs m)) kv.
 Definition prop_c13_b (compact : bool) (m : lmsg) (out : str) : bool :=
   match parse_doc out with
   | Some (JObj kv) => fields_ok kv m && customs_ok kv (mattrs m) && (if compact then no_line_break out else true)
+                      && only_known kv m
   | _ => false
   end.
 
